@@ -170,7 +170,14 @@ def module_tables():
 
 
 def module_table_canon():
-    return {k: canon(v) for k, v in module_tables().items()}
+    memo = {}
+    out = {}
+    for k, v in module_tables().items():
+        i = id(v)
+        if i not in memo:
+            memo[i] = canon(v)
+        out[k] = memo[i]
+    return out
 
 
 def module_table_digest():
@@ -190,6 +197,45 @@ def module_table_diff(before, after):
     return out
 
 
+def _snapcopy(v, depth=0):
+    """Structural copy of containers; leaves (modules, functions, scalars, strings) are shared."""
+    if depth > 20:
+        return v
+    if isinstance(v, dict):
+        return {k: _snapcopy(x, depth + 1) for k, x in v.items()}
+    if isinstance(v, list):
+        return [_snapcopy(x, depth + 1) for x in v]
+    if isinstance(v, tuple):
+        return tuple(_snapcopy(x, depth + 1) for x in v)
+    if isinstance(v, set):
+        return set(v)
+    if isinstance(v, np.ndarray):
+        return v.copy()
+    return v
+
+
+def _has_array(v, depth=0):
+    if isinstance(v, np.ndarray):
+        return True
+    if depth < 4:
+        if isinstance(v, (list, tuple, set)):
+            return any(_has_array(x, depth + 1) for x in v)
+        if isinstance(v, dict):
+            return any(_has_array(x, depth + 1) for x in v.values())
+    return False
+
+
+def _fasthash(v, depth=0):
+    if isinstance(v, np.ndarray):
+        return hash((v.shape, str(v.dtype), v.tobytes()))
+    if depth < 4:
+        if isinstance(v, (list, tuple)):
+            return hash(tuple(_fasthash(x, depth + 1) for x in v))
+        if isinstance(v, dict):
+            return hash(tuple((repr(k), _fasthash(x, depth + 1)) for k, x in v.items()))
+    return hash(repr(v))
+
+
 class TableGuard:
     """Snapshot and in-place restore of all mutable module tables (so runs cannot leak)."""
 
@@ -197,12 +243,29 @@ class TableGuard:
         self.snap = {}
         for k, v in module_tables().items():
             if isinstance(v, (dict, list, set)):
-                self.snap[k] = (v, copy.deepcopy(v))
-        self.names = set(module_tables())
+                self.snap[k] = (v, _snapcopy(v))
+        self.modnames = {m.__name__: set(vars(m)) for m in _iodata_modules()}
         self.canon0 = module_table_canon()
+        self.fast0 = None
+        self.arr_ids = {id(v) for v in module_tables().values() if _has_array(v)}
+        self.fast0 = self._fast()
+
+    def _fast(self):
+        """Cheap fingerprint: repr() of every distinct live table (C speed, injective enough for
+        dict/list/str/number tables); only when it moves the full canonical diff is computed."""
+        memo = {}
+        parts = []
+        for k, v in module_tables().items():
+            i = id(v)
+            if i not in memo:
+                memo[i] = _fasthash(v) if i in self.arr_ids else hash(repr(v))
+            parts.append((k, i, memo[i]))
+        return hash(tuple(parts))
 
     def changed(self):
         """List of differences against the pristine snapshot (empty when untouched)."""
+        if self.fast0 is not None and self._fast() == self.fast0:
+            return []
         now = module_table_canon()
         if now == self.canon0:
             return []
@@ -212,20 +275,20 @@ class TableGuard:
         for _k, (live, saved) in self.snap.items():
             if isinstance(live, dict):
                 live.clear()
-                live.update(copy.deepcopy(saved))
+                live.update(_snapcopy(saved))
             elif isinstance(live, list):
-                live[:] = copy.deepcopy(saved)
+                live[:] = _snapcopy(saved)
             elif isinstance(live, set):
                 live.clear()
-                live.update(copy.deepcopy(saved))
-        # remove module-level names that appeared
+                live.update(_snapcopy(saved))
+        # remove module-level names that appeared since the snapshot
         for m in _iodata_modules():
+            known = self.modnames.get(m.__name__)
+            if known is None:
+                continue
             for attr in list(vars(m)):
-                key = f"{m.__name__}.{attr}"
-                if key not in self.names and not (attr.startswith("__") and attr.endswith("__")):
-                    val = vars(m)[attr]
-                    if attr != "open" and not isinstance(val, (types.ModuleType, type, types.FunctionType)):
-                        delattr(m, attr)
+                if attr not in known and attr != "open":
+                    delattr(m, attr)
 
 
 # --- outcomes --------------------------------------------------------------------------------
